@@ -70,10 +70,14 @@ class Trace(object):
         self.signs = {}          # canonical key -> frozenset of possible signs {'-','0','+'}
         self.sign_exprs = {}     # canonical key -> the (sign-normalised) Rat it stands for
         self.subst = {}          # atom id -> Rat, from the equalities decided true on this path
+        self.no_fork = False     # 'collect everything' mode: undecided tests are taken as true, no alternatives explored
         self.new_forks = []      # indices in decisions that were defaulted (not scripted)
         self.labels = {}         # opaque label key -> bool
 
     def _choose(self, text):
+        if self.no_fork:
+            self.decisions.append((text, True))
+            return True
         if self.pos < len(self.script):
             out = self.script[self.pos]
         else:
@@ -191,6 +195,7 @@ def explore(model, thunk, opts=None, max_paths=MAX_PATHS):
     while stack:
         script = stack.pop()
         tr = Trace(script)
+        tr.no_fork = bool((opts or {}).get('no_fork'))
         it = Interp(model, tr, opts or {})
         res = None
         try:
@@ -342,6 +347,16 @@ class Interp(object):
             a = a.value
         if isinstance(b, NumTok):
             b = b.value
+        from .values import PosInf
+        if isinstance(a, PosInf) or isinstance(b, PosInf):
+            if isinstance(a, PosInf) and isinstance(b, PosInf):
+                return name in ('eq', 'le', 'ge')
+            if not (_numlike(a) or _numlike(b)):
+                raise Undecidable('comparison of inf with %r / %r' % (a, b))
+            # finite OP inf
+            if isinstance(b, PosInf):
+                return name in ('lt', 'le', 'ne')
+            return name in ('gt', 'ge', 'ne')
         if isinstance(a, Rat) or isinstance(b, Rat):
             if _numlike(a) and _numlike(b):
                 return self.compare_zero(to_rat(a) - to_rat(b), name)
@@ -1131,6 +1146,14 @@ class Interp(object):
 
     def call_closure(self, f, args, kwargs):
         qual = f.info.qualname if f.info is not None else None
+        if qual is None and isinstance(f.node, ast.FunctionDef):
+            # nested function: hookable by '<outer qualname>.<locals>.<name>'
+            outer = self.func_stack[-1] if self.func_stack else None
+            nh = self.call_hooks.get('%s.<locals>.%s' % (outer, f.node.name)) or self.call_hooks.get('<locals>.' + f.node.name)
+            if nh is not None:
+                r = nh(self, list(args), kwargs)
+                if r is not NotImplemented:
+                    return r
         if qual is not None:
             hook = self.call_hooks.get(qual)
             if hook is not None:
